@@ -8,3 +8,4 @@ pub mod proto;
 pub mod decode;
 pub mod tables;
 pub mod storage;
+pub mod trees;
